@@ -15,7 +15,7 @@ import ast
 
 from ..index import AnchorMissing, Unrecognised
 from ..cfg import CFG
-from ..astutil import u, body_walk, local_env, func_calls, walk_local, always_terminates, statements, root_name
+from ..astutil import linear_body, u, body_walk, local_env, func_calls, walk_local, always_terminates, statements, root_name
 from .. import sym
 
 EXPLANATION = ("Static path and dataflow analysis of the chunk reader: a statement-level CFG of read_chunk is searched for paths on which bytes already "
@@ -265,7 +265,7 @@ def r3_eof_marker(ctx):
                    key=f"C01-R3|foreign-call|{fi.qualname}")
     # the terminator itself: newline if missing, then the new-entry marker for formats that declare one
     f = ix.func(PARSER, "NumpyFileReader.__add_newline_to_end")
-    ifs = [n for n in f.node.body if isinstance(n, ast.If)]
+    ifs = [n for n in linear_body(f.node) if isinstance(n, ast.If)]
     tests = [sym.canon(i.test) for i in ifs]
     p0, p1 = f.params[1], f.params[2]
     ok1 = any(t == f"(10)!=({p0}[{p1} - 1])" or t == f"({p0}[{p1} - 1])!=(10)" or t == f"(10)!=({p0}[-1 + {p1}])" for t in tests)
@@ -470,7 +470,7 @@ def r7_crlf_sniff(ctx):
     # sampled positions: every subscript of the field-end table that feeds a test guarding the unadjusted return
     samples = []
     for t in [n for n in body_walk(f.node) if isinstance(n, ast.If)]:
-        if not any(isinstance(r, ast.Return) and u(r.value) == fe for r in t.body):
+        if not any(isinstance(r, ast.Return) and u(r.value) == fe for r in list(t.body) + list(t.orelse)):
             continue
         from ..astutil import inline_locals
         test = inline_locals(t.test, env)
